@@ -325,8 +325,8 @@ class Facts:
                                 if isinstance(w, Lin) and w.is_const() and w.c > 0:
                                     rows.append(atom(a).scale(w.c) - L)
         for a in list(atoms):
-            if a[0] == "unk":
-                continue
+            if a[0] == "unk" or (a[0] == "purecall" and a[1] == "memcmp"):
+                continue  # memcmp's result is a signed quantity
             rows.append(atom(a))  # unsigned quantity
             if a[0] == "alignup":
                 rows.append(atom(a) - a[1])  # AlignUp(z) >= z
@@ -415,7 +415,7 @@ class Facts:
     def _all_nonneg(t, depth=0):
         """c + Σ k·atom with c, k >= 0 (every atom denotes an unsigned quantity) is non-negative.
         z <= AlignUp(z, A) <= z + A - 1 is used, one atom at a time, to cancel mixed signs."""
-        if t.c >= 0 and all(k >= 0 and a[0] != "unk" for a, k in t.t):
+        if t.c >= 0 and all(k >= 0 and a[0] != "unk" and not (a[0] == "purecall" and a[1] == "memcmp") for a, k in t.t):
             return True
         if depth > 4:
             return False
